@@ -542,6 +542,12 @@ func checkC10(p *Prog, res *Result, tier string) {
 	for _, o := range sub13.Obls {
 		res.add("C10-R5", o.Rule+" "+o.Construct, o.Status, o.Pos, o.Detail)
 	}
+	// ... and the engine's partitions are clipped to the requested interval (C11-R7)
+	sub11 := newResult("C11")
+	checkPartitionClamp(p, r, sub11, "C11-R7")
+	for _, o := range sub11.Obls {
+		res.add("C10-R5", o.Rule+" "+o.Construct, o.Status, o.Pos, o.Detail)
+	}
 }
 
 func constOf(p *Prog, pkgRel, name string) int64 {
